@@ -1,7 +1,7 @@
 (** C18 — an IOSpec lives exactly as long as a reference to its value.  Property theorems only.
     All statements quantify over every operation list [ops] (new_pandas / new_module / assignment /
-    deletion / update_pandas / update_module / add_bases / remove_bases / close, plus space and cells
-    creation) and every fuel of the C3 linearisation; [run fuel ops] is the state reached from the empty system.
+    deletion / update_pandas / update_module / add_bases / remove_bases / close / spec.sheet= / spec.path= /
+    del_spec, plus space and cells creation) and every fuel of the C3 linearisation; [run fuel ops] is the state reached from the empty system.
     The clause "on saving every live spec's value is written to its file and read back equal" is
     pandas/openpyxl I/O and is NOT covered here (implementation-side oracle only, harness/props/C18.py). *)
 From Coq Require Import List NArith.
@@ -18,13 +18,15 @@ Theorem C18_live : forall fuel ops s,
 Proof. exact live_spec_has_ref. Qed.
 Print Assumptions C18_live.
 
-(** no early death: in one step a spec (identified by its id) disappears only if its model is closed
-    or no reference of the model holds its value afterwards; update_pandas/update_module keep it *)
+(** no early death: in one step a spec (identified by its id) disappears only if its model is closed,
+    or no reference of the model holds its value afterwards, or the step is Model.del_spec of that value;
+    update_pandas/update_module and the sheet/path setters keep it *)
 Theorem C18_live_persist : forall fuel ops o s,
   In s (st_specs (run fuel ops)) ->
   (exists s', In s' (st_specs (fst (step fuel (run fuel ops) o))) /\ s_id s' = s_id s /\ s_grp s' = s_grp s)
   \/ In (s_grp s) (st_closed (fst (step fuel (run fuel ops) o)))
-  \/ ~ bound (fst (step fuel (run fuel ops) o)) (s_grp s) (s_val s).
+  \/ ~ bound (fst (step fuel (run fuel ops) o)) (s_grp s) (s_val s)
+  \/ o = DelSpec (s_grp s) (s_val s).
 Proof. exact spec_persists. Qed.
 Print Assumptions C18_live_persist.
 
